@@ -1182,6 +1182,167 @@ def contracts(reg):
     return out
 
 
-TRUSTED = ["olefile / zipfile / pypdf present the container faithfully (assumed views)"]
-ASSUMED_MODELS = []
-ASSUMPTIONS = []
+# ------------------------------------------------------------------ policy --
+def _canon(mod, call):
+    d = dotted(call.func)
+    if not d:
+        return ""
+    head, _, rest = d.partition(".")
+    origin = mod.imports.get(head)
+    return (origin + ("." + rest if rest else "")) if origin else d
+
+
+def policy(repo, tier):
+    obls, fns = [], []
+    # P1 (second opinion on the typestate, over the real AST, no SMT): every yield of the extractor is dominated by the
+    #    False branch of `if <detector>(...)`, and the True branch ends in `raise ExtractionFileEncryptedError(...)`.
+    for (rel, fn, det, _spec) in EXTRACTORS:
+        short = rel.split("/")[-1]
+        oid = f"C08/{short}::{fn}/policy#detector-dominates-every-yield"
+        m = loader.module(rel, repo)
+        f = m.functions.get(fn)
+        dname = det.split("::")[-1]
+        if f is None:
+            obls.append(ground_obligation(oid, False, "function missing", rel, definite=False))
+            continue
+        tests = [n for n in ast.walk(f) if isinstance(n, ast.If) and isinstance(n.test, ast.Call) and dotted(n.test.func).split(".")[-1] == dname]
+        if not tests:
+            obls.append(ground_obligation(oid, False, f"no `if {dname}(...)` in {fn}: shape not recognised", rel, definite=False))
+            continue
+        bad_branch = [t for t in tests if not (t.body and isinstance(t.body[-1], ast.Raise) and t.body[-1].exc is not None
+                                               and ENCERR in ast.unparse(t.body[-1].exc))]
+        mf = MustFacts(gen_cond=lambda test, branch, dname=dname: ["not-encrypted"] if (branch is False and isinstance(test, ast.Call)
+                                                                                        and dotted(test.func).split(".")[-1] == dname) else [],
+                       need=lambda n: [("not-encrypted", f"line {n.lineno}")] if isinstance(n, (ast.Yield, ast.YieldFrom)) else [])
+        res = mf.run(f)
+        ok = bool(res) and all(r.ok for r in res) and not bad_branch
+        why = "; ".join([f"yield at {r.desc} not dominated by a negative {dname} result" for r in res if not r.ok] +
+                        [f"True branch at line {t.lineno} does not end in raise {ENCERR}" for t in bad_branch]) or f"{len(res)} yield(s) dominated"
+        obls.append(ground_obligation(oid, ok, why, rel))
+        fns.append(dict(m.fn_info(fn), obligations=1))
+    # P2: read_doc: the parse (doc.read()) dominates the yield; the reader is fresh (constructed in read_doc, _content None in __init__)
+    m = loader.module(DOC, repo)
+    f = m.functions.get("read_doc")
+    init = m.functions.get("_DocReader.__init__")
+    ok, why = False, "read_doc / _DocReader.__init__ missing"
+    if f is not None and init is not None:
+        mf = MustFacts(gen=lambda call: ["parsed"] if isinstance(call.func, ast.Attribute) and call.func.attr == "read" else [],
+                       need=lambda n: [("parsed", f"line {n.lineno}")] if isinstance(n, (ast.Yield, ast.YieldFrom)) else [])
+        res = mf.run(f)
+        fresh = any(isinstance(n, ast.With) and any(isinstance(i.context_expr, ast.Call) and dotted(i.context_expr.func) == "_DocReader" for i in n.items)
+                    for n in ast.walk(f))
+        none_init = any(isinstance(n, (ast.Assign, ast.AnnAssign)) and ast.unparse(n.targets[0] if isinstance(n, ast.Assign) else n.target) == "self._content"
+                        and isinstance(n.value, ast.Constant) and n.value.value is None for n in ast.walk(init))
+        ok = bool(res) and all(r.ok for r in res) and fresh and none_init
+        why = f"{len(res)} yield(s); parse dominates={all(r.ok for r in res)}; fresh reader={fresh}; __init__ sets _content=None: {none_init}"
+    obls.append(ground_obligation("C08/doc_extractor.py::read_doc/policy#parse-of-a-fresh-reader-dominates-the-yield", ok, why, DOC, definite=False if not ok and (f is None or init is None) else True))
+    # P3: 7z: an AES-coded header reaches _apply_decoder while the reader is constructed (call chain, syntactic)
+    m = loader.module(SEVEN, repo)
+    chain = ["SevenZipReader.__init__", "SevenZipReader._parse_header", "SevenZipReader._parse_end_header", "SevenZipReader._parse_encoded_header",
+             "SevenZipReader._decompress_folder", "SevenZipReader._apply_decoder"]
+    missing = []
+    for a, b in zip(chain, chain[1:]):
+        fa = m.functions.get(a)
+        if fa is None or not any(isinstance(n, ast.Call) and isinstance(n.func, ast.Attribute) and n.func.attr == b.split(".")[-1] for n in ast.walk(fa)):
+            missing.append(f"{a} -> {b}")
+    ent = m.functions.get("SevenZipFile.__enter__")
+    if ent is None or not any(isinstance(n, ast.Call) and dotted(n.func) == "SevenZipReader" for n in ast.walk(ent)):
+        missing.append("SevenZipFile.__enter__ -> SevenZipReader()")
+    obls.append(ground_obligation("C08/sevenzip.py::SevenZipReader/policy#encoded-header-is-decoded-through-_apply_decoder", not missing,
+                                  "; ".join(missing) or "call chain present", SEVEN, definite=False))
+    # P4: PDF: the AES provider is ensured before an encrypted reader is decrypted / read (else an empty-password AES-128 PDF
+    #     fails with DependencyError instead of extracting like its unencrypted original)
+    m = loader.module(PDF, repo)
+    f = m.functions.get("read_pdf")
+    ok, why = False, "read_pdf missing"
+    if f is not None:
+        mf = MustFacts(gen=lambda call: ["aes-provider-ensured"] if dotted(call.func).split(".")[-1] == "patch_pypdf_fallback_aes" else [],
+                       need=lambda n: [("aes-provider-ensured", f"line {n.lineno}")] if isinstance(n, ast.Call) and isinstance(n.func, ast.Attribute)
+                       and n.func.attr == "decrypt" else [])
+        res = mf.run(f)
+        ok = bool(res) and all(r.ok for r in res)
+        why = "; ".join(f"reader.decrypt at {r.desc}: the built-in AES is installed only if PdfReader() itself raised DependencyError" for r in res if not r.ok) \
+            or f"{len(res)} decrypt site(s) dominated"
+        fns.append(dict(m.fn_info("read_pdf"), obligations=1))
+    obls.append(ground_obligation("C08/pdf_extractor.py::read_pdf/policy#aes-provider-ensured-before-decrypt", ok, why, PDF,
+                                  definite=bool(f is not None)))
+    return {"obligations": obls, "functions": fns}
+
+
+EXTRA = [policy]
+
+
+def bounded_chain_check():
+    """BOUNDED cross-check of the recursive spec FP against the explicit chain o_0=0, o_{k+1}=o_k+4+len16(o_k):
+    for streams shorter than 16 bytes (at most 3 records) FP(0) <=> exists k<=3 with o_k+4<=|d| and id16(o_k)=0x2F."""
+    ole, nm = z3.Const("ole!b", OleFile), sv("Workbook")
+    n = SLEN(ole, nm)
+    bytes_ok = [z3.And(SBYTE(ole, nm, z3.IntVal(i)) >= 0, SBYTE(ole, nm, z3.IntVal(i)) <= 255) for i in range(16)]
+    pos = [z3.IntVal(0)]
+    for _ in range(4):
+        pos.append(pos[-1] + 4 + u16(ole, nm, pos[-1] + 2))
+    valid = [z3.And([p + 4 <= n for p in pos[:k + 1]]) for k in range(5)]
+    explicit = z3.Or([z3.And(valid[k], z3.And([u16(ole, nm, pos[j]) != FILEPASS for j in range(k)]), u16(ole, nm, pos[k]) == FILEPASS) for k in range(5)])
+    return ("C08/encryption.py::spec/bounded#FP-equals-explicit-chain-up-to-16-bytes", [n >= 0, n < 16] + bytes_ok, FP(ole, nm, z3.IntVal(0)) == explicit)
+
+
+def known_findings(kf, violations, repo, tier):
+    """Recorded genuine defects (known_findings.json): replay each witness natively against `repo`; a finding that still
+    fails prints KNOWN-FINDING and covers exactly its own obligation id."""
+    import json
+    import os
+    import subprocess
+    out = []
+    vio_ids = {v["id"] for v in violations}
+    for f in kf:
+        req = {"property": "C08", "obligation": f["obligation"], "known_finding": f["id"], "witness": f.get("witness"), "repo": repo}
+        try:
+            p = subprocess.run(["/venv/bin/python", os.path.join(os.path.dirname(os.path.dirname(os.path.abspath(__file__))), "replay", "run.py")],
+                               input=json.dumps(req), capture_output=True, text=True, timeout=600, env=dict(os.environ, VERIF_REPO=repo))
+            lines = [l for l in p.stdout.splitlines() if l.startswith("{")]
+            res = json.loads(lines[-1]) if lines else {"reproduced": False}
+        except Exception as e:  # noqa
+            res = {"reproduced": False, "note": str(e)}
+        still = bool(res.get("reproduced"))
+        covers = [o for o in f.get("covers", [f["obligation"]]) if o in vio_ids] if still else []
+        out.append({"finding": f["id"], "still_fails": still, "line": f"{f['id']}: {f['what']}", "covers": covers,
+                    "witness_replay": res.get("observed", res.get("note", ""))})
+    return out
+
+
+TRUSTED = ["olefile / zipfile / pypdf / ElementTree present the container faithfully (the abstract views below)",
+           "the assumed XML fact: an element name occurs literally in the serialised manifest"]
+ASSUMED_MODELS = [
+    "olefile.isOleFile(f) / OleFileIO(f): predicate and directory view of the same bytes; exists(name); openstream(name).read() = whole stream or failure (READABLE)",
+    "zipfile.is_zipfile / ZipFile(f) / infolist() / ZipInfo.is_dir() / flag_bits / filename; ZipFile.read(name): KeyError iff no such member",
+    "bytes.decode('utf-8', errors='ignore') of the ODF manifest is its text (UTF-8 producers; a UTF-16 manifest is outside the model)",
+    "struct.Struct('<H'|'<I').unpack_from: little-endian unsigned field, struct.error when out of range",
+    "int.from_bytes(b, 'little') for 0..2 bytes",
+    "SevenZipFile(f): __enter__ parses the archive; an AES-coded encoded header makes it raise _apply_decoder's Bad7zFile (call chain checked syntactically)",
+    "SevenZipFile.needs_password() on the opened archive = verified contract of SevenZipFile/SevenZipReader.needs_password",
+    "_EpubContext(f).exists / read_xml_root / close (total); Element.findall('.//{xmlenc}EncryptedData') = all such descendants",
+    "pypdf.PdfReader(f), .is_encrypted, .decrypt(''), .pages",
+    "_DocReader(f) used as a context manager: read() behaves as the verified contract of _DocReader.read on a fresh reader",
+    "os.path.basename total on str; _should_skip_file total (C09); open_zipfile (C11); router contracts (C07)",
+]
+BOUNDED = ["C08/encryption.py::spec/bounded#FP-equals-explicit-chain-up-to-16-bytes: recursive chain predicate = explicit chain o_k for streams < 16 bytes (<= 3 records); "
+           "checked by `python3-vt -c 'from contracts.C08 import run_bounded; run_bounded()'` and, natively, by 400 random BIFF chains per run in replay/C08.py (validation, not proof)"]
+ASSUMPTIONS = [
+    "EXC-ANY for library calls; PY-GEN; PY-LOG",
+    "obligations speak about the container *views*; that pypdf / olefile compute them correctly is trusted",
+    "a failure of the container library before the detector has a result (cannot open, cannot read the stream) is not a rejection 'as encrypted' and is allowed",
+    "EPUB: font obfuscation (IDPF / Adobe algorithms) is not encryption in the sense of the statement; rights.xml counts as DRM",
+    "nested case not decided: an encrypted member inside a plain archive is skipped by _process_archive_entry (C01 contract: member failures never escape)",
+    "CLI entry point: covered by C01 (exit 1 + one stderr line for any ExtractionError); not re-proved here",
+    "'same content as the unencrypted original' for empty-password PDFs is checked natively only (replay: RC4-40/128, AES-128/256 copies), see F28",
+    "typestate second opinion and the AES-provider obligation are decided by AST dominance analysis (back end 'dataflow')",
+]
+
+
+def run_bounded():
+    """python3-vt -c 'from contracts.C08 import run_bounded; run_bounded()'  -- BOUNDED, never counted as proved."""
+    from pyvc import solve
+    oid, hyps, goal = bounded_chain_check()
+    r = solve.check_vc(hyps, goal, 60000, want_model=False)
+    print("BOUNDED", oid, r.status, r.backend, round(r.seconds, 2))
+    return r.status
